@@ -1,7 +1,8 @@
-(* C15 proofs, part 1: a quoted GraphQL string whose content is copied verbatim between JSON
-   quotation marks is read back by the RFC 8259 string grammar as the value the GraphQL
-   grammar gives it -- provided it has no raw control character and no braced escape. *)
-From Gv Require Import lib.Bytes lib.Gql C15.Unicode C15.Model C15.Spec C15.Diag.
+(* C15 proofs, part 1: a quoted GraphQL string whose content is copied between JSON quotation
+   marks with its raw control characters escaped (c15_fix_raw-control-char) is read back by the
+   RFC 8259 string grammar as the value the GraphQL grammar gives it -- provided it has no braced
+   escape. *)
+From Gv Require Import lib.Bytes lib.Gql C15.Unicode C15.Model C15.Spec C15.Diag C15.ProofsEnc.
 From Coq Require Import Lia ZifyN ZifyNat ZifyBool ZArith.
 Open Scope N_scope.
 
@@ -56,28 +57,41 @@ Proof.
   destruct s; auto. apply has_raw_ctl_cons in H. apply IHk. tauto.
 Qed.
 
+Lemma escape_ctl_hi : forall b r, (b <? 32) = false -> escape_ctl (b :: r) = b :: escape_ctl r.
+Proof. intros b r H. cbn [escape_ctl]. rewrite H. reflexivity. Qed.
+Lemma escape_ctl_lo : forall b r, (b <? 32) = true ->
+  escape_ctl (b :: r) = [92; 117; 48; 48; hexdigit (b / 16); hexdigit (b mod 16)] ++ escape_ctl r.
+Proof. intros b r H. cbn [escape_ctl]. rewrite H. reflexivity. Qed.
+Lemma hex_hi : forall b h, hexval b = Some h -> (b <? 32) = false.
+Proof. intros b h H. destruct (hexval_not_special _ _ H) as (_ & _ & _ & E). lia. Qed.
+Lemma escaped_char_hi : forall e c, gql_escaped_char e = Some c -> (e <? 32) = false.
+Proof.
+  intros e c. unfold gql_escaped_char.
+  repeat match goal with |- context [if ?x =? ?k then _ else _] => destruct (x =? k) eqn:?; [intros _; lia|] end.
+  discriminate.
+Qed.
+
 Theorem quoted_string_agrees :
   forall n raw out rest,
     (length raw <= n)%nat ->
     gql_str GPlain raw = Some out ->
-    has_raw_ctl raw = false ->
     no_brace_escape raw = true ->
-    json_str true (raw ++ 34 :: rest) = Some (out, rest).
+    json_str true (escape_ctl raw ++ 34 :: rest) = Some (out, rest).
 Proof.
-  induction n; intros raw out rest Hlen Hg Hc Hb.
+  induction n; intros raw out rest Hlen Hg Hb.
   { destruct raw; [|simpl in Hlen; lia]. simpl in Hg. inversion Hg. reflexivity. }
   destruct raw as [|b r].
   { simpl in Hg. inversion Hg. reflexivity. }
   simpl in Hlen.
-  apply has_raw_ctl_cons in Hc. destruct Hc as [Hb32 Hc].
   cbn [gql_str] in Hg.
   destruct (b =? 92) eqn:Eb.
   - (* an escape *)
     destruct r as [|e r1]; [discriminate|].
-    apply has_raw_ctl_cons in Hc. destruct Hc as [_ Hc].
     simpl in Hlen.
+    rewrite escape_ctl_hi by lia.
     destruct (e =? 117) eqn:Ee.
-    + destruct r1 as [|a r2]; [discriminate|].
+    + rewrite (escape_ctl_hi e) by lia.
+      destruct r1 as [|a r2]; [discriminate|].
       destruct (a =? 123) eqn:Ea.
       { rewrite (no_brace_u _ _ _ _ Eb Ee), Ea in Hb. discriminate. }
       destruct r2 as [|b2 [|c2 [|d2 r3]]]; try discriminate.
@@ -87,8 +101,8 @@ Proof.
       { rewrite (no_brace_u _ _ _ _ Eb Ee), Ea in Hb.
         rewrite (no_brace_skip_hex _ _ _ Ha), (no_brace_skip_hex _ _ _ Hb2), (no_brace_skip_hex _ _ _ Hc2), (no_brace_skip_hex _ _ _ Hd2) in Hb.
         exact Hb. }
-      assert (Hc3 : has_raw_ctl r3 = false) by (apply (has_raw_ctl_skipn 4 (a :: b2 :: c2 :: d2 :: r3)); exact Hc).
       simpl in Hlen.
+      rewrite (escape_ctl_hi a), (escape_ctl_hi b2), (escape_ctl_hi c2), (escape_ctl_hi d2) by (eapply hex_hi; eassumption).
       cbn [app json_str]. rewrite Eb.
       assert (E34 : (b =? 34) = false) by lia. rewrite E34.
       rewrite Ee. rewrite Eh. cbn [negb].
@@ -105,29 +119,38 @@ Proof.
           rewrite (no_brace_u _ _ _ _ Ex1 Ex2), E123 in Hb3.
           rewrite (no_brace_skip_hex _ _ _ Ha'), (no_brace_skip_hex _ _ _ Hb'), (no_brace_skip_hex _ _ _ Hc'), (no_brace_skip_hex _ _ _ Hd') in Hb3.
           exact Hb3. }
-        assert (Hc4 : has_raw_ctl r4 = false) by (apply (has_raw_ctl_skipn 6 (x1 :: x2 :: a' :: b' :: c' :: d' :: r4)); exact Hc3).
+        rewrite (escape_ctl_hi x1), (escape_ctl_hi x2) by lia.
+        rewrite (escape_ctl_hi a'), (escape_ctl_hi b'), (escape_ctl_hi c'), (escape_ctl_hi d') by (eapply hex_hi; eassumption).
         cbn [app]. rewrite Ex, Eh2, Els.
-        rewrite (IHn r4 t rest); [reflexivity| simpl in Hlen; lia | exact Hg | exact Hc4 | exact Hb4].
+        rewrite (IHn r4 t rest); [reflexivity| simpl in Hlen; lia | exact Hg | exact Hb4].
       * destruct (is_low_surrogate cp) eqn:Els; [discriminate|].
         apply opt_app_some in Hg. destruct Hg as (t & Hg & ->).
-        rewrite (IHn r3 t rest); [reflexivity| lia | exact Hg | exact Hc3 | exact Hb3].
+        rewrite (IHn r3 t rest); [reflexivity| lia | exact Hg | exact Hb3].
     + destruct (gql_escaped_char e) as [c|] eqn:Eg; [|discriminate].
       apply opt_app_some in Hg. destruct Hg as (t & Hg & ->).
       assert (Hb1 : no_brace_escape r1 = true).
       { rewrite (no_brace_esc _ _ _ Eb Ee) in Hb. exact Hb. }
+      rewrite (escape_ctl_hi e) by (eapply escaped_char_hi; eassumption).
       cbn [app json_str]. rewrite Eb.
       assert (E34 : (b =? 34) = false) by lia. rewrite E34.
       rewrite Ee. rewrite escaped_char_same, Eg.
-      rewrite (IHn r1 t rest); [reflexivity| lia | exact Hg | exact Hc | exact Hb1].
+      rewrite (IHn r1 t rest); [reflexivity| lia | exact Hg | exact Hb1].
   - (* a plain character *)
     destruct ((b =? 34) || (b =? 10) || (b =? 13)) eqn:Eq; [discriminate|].
     apply opt_app_some in Hg. destruct Hg as (t & Hg & ->).
     assert (Hb1 : no_brace_escape r = true).
     { rewrite (no_brace_plain _ _ Eb) in Hb. exact Hb. }
-    cbn [app json_str]. rewrite Eb.
-    assert (E34 : (b =? 34) = false) by lia. rewrite E34.
-    rewrite Hb32. cbn [andb].
-    rewrite (IHn r t rest); [reflexivity| lia | exact Hg | exact Hc | exact Hb1].
+    destruct (b <? 32) eqn:Hb32.
+    + (* a raw control character, written as an escape *)
+      rewrite (escape_ctl_lo _ _ Hb32). rewrite <- app_assoc.
+      rewrite ctl_escape_read by lia.
+      assert (E := IHn r t rest ltac:(lia) Hg Hb1).
+      unfold bytes, byte in *. rewrite E. reflexivity.
+    + rewrite (escape_ctl_hi _ _ Hb32).
+      cbn [app json_str]. rewrite Eb.
+      assert (E34 : (b =? 34) = false) by lia. rewrite E34.
+      rewrite Hb32. cbn [andb].
+      rewrite (IHn r t rest); [reflexivity| lia | exact Hg | exact Hb1].
 Qed.
 
 (* names and other plain ASCII runs *)
